@@ -524,6 +524,21 @@ impl<'a, 'tcx> Cx<'a, 'tcx> {
         m.insert("l".into(), J::I(l as i64));
         if exp {
             m.insert("x".into(), J::B(true));
+            // name of the outermost (user-written) macro invocation this code comes from
+            let mut cur = sp;
+            let mut name = String::new();
+            for _ in 0..32 {
+                if !cur.from_expansion() {
+                    break;
+                }
+                let data = cur.ctxt().outer_expn_data();
+                name = match data.macro_def_id {
+                    Some(d) => self.tcx.def_path_str(d),
+                    None => data.kind.descr().to_string(),
+                };
+                cur = data.call_site;
+            }
+            m.insert("xm".into(), J::s(&name));
         }
     }
 
